@@ -671,6 +671,7 @@ struct Stats
     std::vector<Failure> failures;
     uint64_t failure_events = 0;
     uint64_t hang_events = 0;
+    std::map<std::string, int> retries; // per signature: later failures tried because the representative was unconfirmed
     uint64_t slow_discards = 0;
     bool incomplete = false;
     std::string incomplete_why;
@@ -962,10 +963,19 @@ static double hang_limit_for(const Opts &o, const Stats &st)
 static void process_failure(const Opts &o, const Target &t, Stats &st, Failure f)
 {
     st.failure_events++;
-    for (auto &g : st.failures)
-        if (g.sig == f.sig)
-            return; // one representative per signature
-    if ((int)st.failures.size() >= o.max_fail_sigs)
+    // one representative per signature — but a representative that did not reproduce in isolation (state carried over
+    // from an earlier case of the same worker process) is given up for a later failure of the same signature that does;
+    // at most 12 such attempts per signature
+    size_t replace_at = (size_t)-1;
+    for (size_t i = 0; i < st.failures.size(); i++)
+        if (st.failures[i].sig == f.sig)
+        {
+            if (st.failures[i].confirmed || st.retries[f.sig] >= 12)
+                return;
+            st.retries[f.sig]++;
+            replace_at = i;
+        }
+    if (replace_at == (size_t)-1 && (int)st.failures.size() >= o.max_fail_sigs)
         return;
     double hang_limit = hang_limit_for(o, st);
     if (!f.is_enum)
@@ -1023,6 +1033,14 @@ static void process_failure(const Opts &o, const Target &t, Stats &st, Failure f
     else if (f.confirmed && f.desc.empty())
     {
         f.desc = last.desc;
+    }
+    if (replace_at != (size_t)-1)
+    {
+        if (!f.confirmed)
+            return; // keep the earlier unconfirmed record
+        write_replay(o, t, f);
+        st.failures[replace_at] = f;
+        return;
     }
     write_replay(o, t, f);
     st.failures.push_back(f);
@@ -1147,7 +1165,7 @@ static void run_campaign(const Opts &o, const Target &t, Stats &st, bool is_enum
             for (auto &f : pending)
                 process_failure(o, t, st, f);
             pending.clear();
-            if (st.failure_events >= 40 || (int)st.failures.size() >= o.max_fail_sigs)
+            if (st.failure_events >= 120 || (int)st.failures.size() >= o.max_fail_sigs)
                 abort_campaign = true;
             for (auto &f : st.failures)
                 if (f.kind == "hang" && f.confirmed)
